@@ -29,13 +29,13 @@ func c16Base() core.Tree {
 }
 
 type c16Case struct {
-	Fault  string   `json:"fault"`
-	Where  string   `json:"where"`
-	Cmd    string   `json:"cmd"`
-	Args   []string `json:"args"`
-	Stdin  string   `json:"stdin,omitempty"`
+	Fault  string    `json:"fault"`
+	Where  string    `json:"where"`
+	Cmd    string    `json:"cmd"`
+	Args   []string  `json:"args"`
+	Stdin  string    `json:"stdin,omitempty"`
 	Tree   core.Tree `json:"-"`
-	Faulty string   `json:"faulty_rule,omitempty"` // rule id whose result must not be reported
+	Faulty string    `json:"faulty_rule,omitempty"` // rule id whose result must not be reported
 }
 
 // assembly-side faults: one planted line (or include file)
